@@ -1,23 +1,68 @@
 ------------------------------- MODULE MCWalk -------------------------------
-(* Random walks (tlc -simulate): any sequence of steps over Vocab from an initial state,
-   ideal reading; only the *program* is printed - it is then executed under both readings
-   by MCProg (with Progs <- the generated set) so that walks and enumerated programs share
-   one code path.  WalkOk(S, st) lets a family steer the walk (e.g. avoid useless steps).  *)
-EXTENDS Universe
-CONSTANTS Vocab, Depth, WalkOk(_, _)
-VARIABLES prog
-wvars == <<S, prog, devs, step, op>>
+(***************************************************************************)
+(* Random walks (tlc -simulate): any sequence of Depth steps over Vocab from *)
+(* an initial state.  Every step is evaluated twice: phase A under the      *)
+(* ideal reading (devs = {}) from the ideal state S, and phase B under      *)
+(* devs = OpenDev from SR, the state of the "what the code does" reading,   *)
+(* which follows the same walk and differs from S only in parts no client   *)
+(* can see at that point (lazily expired objects, object identities,        *)
+(* orphaned databases).  Where the two readings disagree observably, the    *)
+(* deviated expectation is recorded for the step; a replayed walk stops     *)
+(* there if the server takes the deviated branch, and otherwise the server  *)
+(* has shown the ideal behaviour, so SR is re-synchronised with S.          *)
+(* The finished walk is printed as one JSON replay case.                    *)
+(***************************************************************************)
+EXTENDS MCTree
+CONSTANTS WalkOk(_, _)       \* WalkOk(S, st): lets a family steer the walk on the current state
+VARIABLES pend, SR
+wvars == <<S, hist, devs, step, op, pend, SR>>
 
-WStepOf(s, st) == IF st[1] = 0 THEN Tick(s, st[2][1]) ELSE Apply(s, st[1], st[2]).S
+NoReal == [none |-> TRUE]
+WInit == /\ S \in States
+         /\ hist = <<>>
+         /\ devs = {}
+         /\ step = 0
+         /\ op = [pre |-> StateFullJ(S)]
+         /\ pend = <<>>
+         /\ SR = S
 
-WInit == S \in States /\ prog = <<>> /\ devs = {} /\ step = 0 /\ op = [s0 |-> S]
-WNext == /\ Len(prog) < Depth
-         /\ \E st \in Vocab : /\ WalkOk(S, st)
-                              /\ S' = WStepOf(S, st)
-                              /\ prog' = Append(prog, st)
-         /\ UNCHANGED <<devs, step, op>>
+\* what a client can observe of a server state
+Visible(s) == <<[i \in DOMAIN s.dbs |-> Live(s.dbs[i], s.now)],
+               [c \in DOMAIN s.conn |-> [s.conn[c] EXCEPT !.cas = FALSE, !.wid = <<>>, !.o = 0]]>>
+
+PhaseA == /\ pend = <<>>
+          /\ Len(hist) < Depth
+          \* RandomElement: one successor per step (TLC would otherwise evaluate every command of the
+          \* vocabulary, including its JSON rendering, just to pick one)
+          /\ \E st \in {RandomElement({v \in Vocab : WalkOk(S, v)})} :      \* (bound once)
+               LET res == StepOf(S, st)
+               IN     /\ S' = res.S
+                      /\ hist' = Append(hist, [c |-> st[1], cmd |-> st[2], r |-> res.r, post |-> StateFullJ(res.S),
+                                               dv |-> res.dv, rel |-> res.rel, tol |-> res.tol, real |-> NoReal])
+                      /\ pend' = IF OpenDev = {} THEN <<>> ELSE <<[st |-> st, r |-> res.r]>>
+                      /\ devs' = IF OpenDev = {} THEN {} ELSE OpenDev
+                      /\ SR' = IF OpenDev = {} THEN res.S ELSE SR
+          /\ UNCHANGED <<step, op>>
+PhaseB == /\ pend # <<>>
+          /\ LET res == StepOf(SR, pend[1].st)
+                 same == res.r = pend[1].r /\ Visible(res.S) = Visible(S)
+             IN  /\ hist' = [hist EXCEPT ![Len(hist)].real =
+                              IF same THEN NoReal
+                              ELSE [r |-> res.r, post |-> StateFullJ(res.S), dv |-> res.dv, rel |-> res.rel, tol |-> res.tol]]
+                 /\ SR' = IF same THEN res.S ELSE S
+          /\ pend' = <<>>
+          /\ devs' = {}
+          /\ UNCHANGED <<S, step, op>>
+\* a finished walk takes one more (deterministic) step, so that it is printed exactly once: TLC evaluates
+\* invariants on every candidate successor of a simulation step, not only on the chosen one
+Finish == /\ pend = <<>> /\ Len(hist) = Depth /\ step = 0
+          /\ step' = 1
+          /\ UNCHANGED <<S, hist, devs, op, pend, SR>>
+WNext == PhaseA \/ PhaseB \/ Finish
 WSpec == WInit /\ [][WNext]_wvars
-AnyStep(s, st) == TRUE
+AnyState(s, st) == TRUE
+VocabOf(cmds) == {<<1, c>> : c \in cmds}
+
 \* "invariant" that prints the finished walk
-WPrint == Len(prog) < Depth \/ PrintT(ToJson([walk |-> prog, init |-> StateJ(op.s0)]))
+WPrint == step = 0 \/ PrintT(ToJson([fam |-> Fam, walk |-> TRUE, pre |-> op.pre, steps |-> hist]))
 =============================================================================
